@@ -477,4 +477,37 @@ theorem run_length (ops : List Op) (s : Sys) (evs : List (Nat × Ev)) : (run ops
     obtain ⟨i, e⟩ := ie
     rw [run_cons, ih, step_length]
 
+/-! ### an acknowledged apply -/
+
+theorem apply_ok {ops : List Op} {r : Replica} {src : Option Snap}
+    (h : (stepR ops r src .apply).2.res = .ok) :
+    r.up = true ∧ ∃ op, ops[r.applied]? = some op ∧
+      stepR ops r src .apply =
+        ({ r with store := applyOp r.store op, initialized := true, poisoned := false, applied := r.applied + 1 },
+         { res := .ok, calls := [callOf op] }) := by
+  unfold stepR at h ⊢
+  dsimp only at h ⊢
+  by_cases hup : r.up = true
+  · refine ⟨hup, ?_⟩
+    simp only [hup, Bool.not_true, Bool.false_eq_true, if_false] at h ⊢
+    cases hop : ops[r.applied]? with
+    | none => rw [hop] at h; cases h
+    | some op =>
+      rw [hop] at h
+      dsimp only at h ⊢
+      refine ⟨op, rfl, ?_⟩
+      by_cases hd : (!op.decodable) = true
+      · rw [if_pos hd] at h; cases h
+      · rw [if_neg hd] at h ⊢
+        by_cases hp : (r.poisoned && op.isPin) = true
+        · rw [if_pos hp] at h; cases h
+        · rw [if_neg hp]
+  · have : r.up = false := by simpa using hup
+    simp only [this, Bool.not_false, if_true] at h
+    cases h
+
+theorem stored_fields (p : Pin) :
+    p.stored.cid = p.cid ∧ p.stored.type = p.type ∧ p.stored.depth = p.depth ∧ p.stored.allocs = p.allocs ∧
+    p.stored.opts.mode = depthToMode p.depth := ⟨rfl, rfl, rfl, rfl, rfl⟩
+
 end CV.C01
